@@ -293,9 +293,10 @@ def spy_on(inner, mon):
 
 class ScriptBackend(TrialBackend):
     def __init__(self, sym, mon, R=2, K=2, J=1, max_fail=0, Z=1, P=12, checkpointing=True,
-                 delete_checkpoints=False, value_fn=None, metric="m", resource="r", R_of=None, stop_lag=0):
+                 delete_checkpoints=False, value_fn=None, metric="m", resource="r", R_of=None, stop_lag=0, eager=False):
         super().__init__(delete_checkpoints=delete_checkpoints)
         self.sym, self.mon = sym, mon
+        self.eager = eager    # deterministic workers: K reports per poll, exit as soon as the final level is reported
         self.R, self.K, self.J, self.Z, self.P = R, K, J, Z, P
         self.max_fail = max_fail
         self.checkpointing = checkpointing
@@ -372,7 +373,10 @@ class ScriptBackend(TrialBackend):
             Rt = self.final_level(t)
             room = Rt - self.level[t]
             kmax = min(self.K, room)
-            k = self.sym.choice("k_p%d_t%d" % (self.polls, t), kmax + 1) if kmax > 0 else 0
+            if self.eager:
+                k = kmax
+            else:
+                k = self.sym.choice("k_p%d_t%d" % (self.polls, t), kmax + 1) if kmax > 0 else 0
             for _ in range(k):
                 self._report(t)
                 progress = True
@@ -381,7 +385,10 @@ class ScriptBackend(TrialBackend):
                 ends.append("fail")
             if self.level[t] >= Rt:
                 ends.append("exit")
-            e = ends[self.sym.choice("end_p%d_t%d" % (self.polls, t), len(ends))]
+            if self.eager and len(ends) == 2 and ends[1] == "exit":
+                e = "exit"
+            else:
+                e = ends[self.sym.choice("end_p%d_t%d" % (self.polls, t), len(ends))]
             if e == "fail":
                 self.wst[t] = Status.failed
                 self.exited[t] = True
